@@ -407,7 +407,7 @@ func c07Stream(c *fw.Ctx, cs *c07Case, base []byte) {
 	if len(variants) == 0 {
 		return
 	}
-	const want = 140 // well above the number of pool buffers
+	const want = 180 // well above the number of pool buffers (60 sentinels)
 	var data []byte
 	sentinels := 0
 	hostile := 0
@@ -419,6 +419,10 @@ func c07Stream(c *fw.Ctx, cs *c07Case, base []byte) {
 		if k%3 == 2 {
 			sentinels++
 			e := []byte{4, 2, 0, 8, 0x5e, 0, 0, 0}
+			if c.Index%2 == 1 { // jumbo sentinels: echo requests with a body larger than a pool buffer's initial capacity
+				e = append(e, r.Bytes(2100+r.Intn(1300))...)
+				binary.BigEndian.PutUint16(e[2:], uint16(len(e)))
+			}
 			binary.BigEndian.PutUint16(e[6:], uint16(sentinels))
 			data = append(data, e...)
 			wantS[sentinelDump(e)] = sentinels
